@@ -271,6 +271,8 @@ Proof.
     assert (Hx10 : x10_len = 6%nat) by reflexivity. rewrite Hx10.
     cbn [length].
     replace (Nat.leb 6 (S (S (S (length body))))) with true by (symmetry; apply Nat.leb_le; lia).
+    change (((27 =? 27) && (91 =? 91))%N) with true. change ((60 =? 77)%N) with false.
+    change ((60 =? 60)%N) with true. cbv iota.
     rewrite HM. f_equal.
     rewrite !app_length. cbn [length]. lia.
   - rewrite parse_sgr_model.
@@ -297,6 +299,7 @@ Proof.
     rewrite len_ge_spec. cbn [length].
     replace (Nat.leb x10_len (S (S (S (S (S (S (length rest)))))))) with true
       by (symmetry; apply Nat.leb_le; change x10_len with 6%nat; lia).
+    change (((27 =? 27) && (91 =? 91))%N) with true. change ((77 =? 77)%N) with true.
     reflexivity.
   - unfold parse_x10. cbn [expect].
     rewrite !Z2N.id by lia.
